@@ -288,7 +288,16 @@ func (d *recDrv) ExecContext(_ context.Context, q string, _ ...any) (sql.Result,
 func body(f file) string {
 	b := fmt.Sprintf("select %s1;\nselect %s2;\n", f.Ver, f.Ver)
 	if f.Ck {
-		b = "-- atlas:checkpoint\n\n" + b
+		// The checkpoint directive is a file directive: it may sit anywhere in the header block (detached from
+		// the first statement by an empty line), not only on its first line.
+		switch f.Ver {
+		case "2", "5":
+			b = "-- hand-written checkpoint\n-- atlas:checkpoint\n\n" + b
+		case "3", "6":
+			b = "-- atlas:nolint\n-- atlas:checkpoint\n\n" + b
+		default:
+			b = "-- atlas:checkpoint\n\n" + b
+		}
 	}
 	return b
 }
